@@ -174,7 +174,7 @@ class CodegenHarness(Harness):
             o = arm32.Z3OPS if sym else arm32.PYOPS
         else:
             o = rv32.Z3OPS if sym else rv32.PYOPS
-        out = _tv.term_out if sym else (lambda t: t)
+        out = (lambda t: _tv.term_out(_c05arm.canon(t))) if sym else (lambda t: t)
         f = b.func
         # ---- reference: IR semantics under the link map
         try:
@@ -197,6 +197,9 @@ class CodegenHarness(Harness):
             elif not prem_t:
                 raise core.Abort()
             ref = _tv.observable(sem, r)
+            if sym and r is not None:
+                ref["ret"] = out(r)
+                ref["trace"] = [(n, [out(a) for a in args]) for n, args in sem.trace]
             ref["undef"] = {k: [_tv.term_out(u) for u in sem.undefined_bytes(k)] for k in ref["mem"]}
             premise = prem_t
         except irsem.Unsupported as e:
